@@ -40,8 +40,9 @@ Extensions of WP-T2 (one SPECS table and one generated file per property, see SU
   * calls of functions of OTHER lentil files named in spec['modules'] are inlined too (lentil.extent.* from
     propagate.py), with keyword arguments; an argument that is a choice between shapes (() or (nr, nc)) is split;
   * spec['arr_calls'] takes the result of a call f(<array parameter>, ...) as an input (lentil.boundary(mask, 0));
-    spec['assume'] takes the value an UNTRANSLATABLE statement binds to a named local as an input (fix_shift =
-    np.fix(shift), fft_shape, n of zernike_index); spec['assume_at_loop'] makes named locals arbitrary inputs when
+    spec['assume'] makes a named local an INPUT: the first statement that binds it is never translated, whatever
+    form it takes (fix_shift = np.fix(shift), fft_shape, the float row formula n of zernike_index - also when it
+    is rewritten with math.isqrt or split over several statements; `import` statements are skipped); spec['assume_at_loop'] makes named locals arbitrary inputs when
     the focused loop is entered;
   * spec['loop_focus']: observe when a loop over untranslatable things is reached ('before') or at the end of ONE
     GENERIC iteration of its body ('body': every name the body binds is unknown at its start); an `if` that ends
@@ -69,6 +70,12 @@ Extensions of WP-T2 (one SPECS table and one generated file per property, see SU
   * mutation tracking is per object: an untranslated call poisons only the values passed to it DIRECTLY (or as a
     view/attribute), not the operands of arithmetic inside its arguments; an observation reads a numpy vector AS
     IT WAS ASSIGNED (poison is ignored for the observed expression only).
+
+Decision policy of a layer (run_layer): a function the translator REFUSES is only reported; when an equivalence
+lemma no longer compiles, the translated term is compared with the model's Python mirror (arguments sampled like the
+self-check, an exhaustive small box, random points): a FOUND disagreement is a violation with that witness; if none
+is found the function is reported like a refusal ("equivalence proof did not go through automatically, no
+disagreement found on N points") - a failed proof script alone is not evidence against the code.
 
 Two kinds of entries:
   * value entries: the translated term is the function's return value;
